@@ -31,11 +31,22 @@ RULE = ('chemical sets of 1-8 (pool of 16) with 2 user aliases per chemical and 
         'ivol[key], get_flow, get_data must leave the flow data bit-identical (<clause>/<op>/source-untouched) and the model is never brought in line with what a read left behind; a scalar volumetric write to a group key '
         'must be refused with the documented AttributeError (vol/group-write-accepted/<kind>/<form>) and must not touch entries outside the key; the two aliases Setup defines per chemical are part of the vocabulary from the '
         "harness's own list and are asserted right after every compile (names-one-position/setup-alias/<set>). "
+        'Added (shared names): chemical sets in which two or three chemicals claim the same name - isomers of the database (one formula), a chemical copied under a new ID (keeps the formula), user-defined chemicals '
+        'given the same alias / common name / IUPAC name / formula at construction, a user alias that is the formula / common / IUPAC name of a database chemical of the set. About one case in five has 2-3 isomers in its '
+        "primary set (so every operation of the history runs on such a set), and 0-2 'shared' operations per case build a dedicated set and compile it as given / in the opposite order / without all but one claimant / "
+        'through the CompiledChemicals constructor / unpickled, in random order. Oracles: a name claimed by several chemicals (and owned by none as ID / CAS) is a name of no single position, so each of 36 entry points '
+        '(chemicals.index / indices / get_index / [name] / attribute / available_indices, single- and multi-phase molar and mass reads and writes by name / tuple / list / (phase, name) / (..., name), get_flow / set_flow / '
+        'get_data, brand-new indexers, phase proxies, isplit / kwsplit / kwarray / array / ikwarray, Stream(**{name: flow}), define_group with it as a member) must refuse it with UndefinedChemicalAlias '
+        '(names-one-position/shared-name/<source>/<entry>/answered | wrong-exception) and leave the data untouched (.../data-untouched); every name claimed by one chemical only resolves to it in every such set '
+        '(names-one-position/shared-set/<set>/index), also after the other claimants were removed; the same keys are read / written through all these sets in interleaved order (sibling-set/shared-*/...); a group may take '
+        'the shared name; group definitions that are refused (undefined / shared member, composition of the wrong length) leave names and groups as they were (rejected-definition/<what>/...). '
         'non-trivial = key addresses >=2 positions or a group, data has >=2 non-zero entries; distinct = hash of (set, key form, key)')
 MIN_NONTRIVIAL = {'quick': 2000, 'thorough': 50000}
 ASSUMPTIONS = ['names of a chemical are taken from the Chemical object (ID, CAS, aliases, formula, common_name, iupac_name) with the documented rule that a name claimed by two chemicals of the set is dropped',
                'a lookup summed over phases cannot be written (documented IndexError) and is not judged',
                'a name that a compiled set does not define (not an ID, CAS, alias, unambiguous formula / common / IUPAC name or group of that set) is documented to raise UndefinedChemicalAlias, a single letter that is no phase of the indexer UndefinedPhase',
+               'a name claimed by two or more chemicals of a set and owned by none of them as ID / CAS is not a name of that set (documented: repeated names cannot be used as aliases): every lookup / write through it raises '
+               'UndefinedChemicalAlias, which is counted and not judged further; an alias given at construction that is the ID / CAS of another chemical of the set makes compile raise ValueError (alias already in use): a documented refusal',
                'a scalar volumetric flow written to a group is a documented refusal (AttributeError: cannot set groups by volumetric flow); whether the plain chemicals of a nested key listed before the group were already written when it is raised is not judged']
 POOL = ('Water', 'Ethanol', 'Methanol', 'Propanol', 'Butanol', 'Glycerol', 'Octane', 'Hexane', 'CO2', 'N2', 'O2', 'AceticAcid', 'Acetone', 'Glucose', 'Benzene', 'Toluene')
 
@@ -50,7 +61,14 @@ def required(tier):
             # strengthened oracles: undefined keys judged per form, reads that must leave their source untouched, the volumetric group write refusal, the aliases of Setup
             'sibling:undefined-here:M-phase', 'sibling:undefined-here:M-sum', 'sibling:undefined-here:S', 'sibling:undefined-here:raw', 'sibling:undefined-here:split', 'sibling:undefined-here:get_index',
             'flows:read-source-untouched', 'vol:group-write-refused', 'vol:group-write-refused:group', 'vol:group-write-refused:nested',
-            'setup-alias:primary', 'setup-alias:twin', 'setup-alias:recompiled', 'setup-alias:extended'] + ['bad-key:' + f_ for f_ in BAD_KEY_FORMS]
+            'setup-alias:primary', 'setup-alias:twin', 'setup-alias:recompiled', 'setup-alias:extended'] + ['bad-key:' + f_ for f_ in BAD_KEY_FORMS] + [
+            # added: sets in which two or three chemicals claim the same name (every source of the name, every way the set is compiled, the primary set with isomers)
+            'shared', 'shared-name>=500', 'shared-name:formula>=100', 'shared-name:alias>=50', 'shared-name:common_name>=30', 'shared-name:iupac_name>=30', 'shared-name:mixed>=30',
+            'shared-name:three-claimants>=50', 'shared-name:every-chemical-claims', 'shared-name:primary>=20', 'shared-name:primary-mid-history', 'shared-name:siblings',
+            'shared-name:set:primary', 'shared-name:set:permuted', 'shared-name:set:shared-base>=100', 'shared-name:set:shared-permuted>=100', 'shared-name:set:shared-without',
+            'shared-name:set:shared-constructor', 'shared-name:set:shared-pickled', 'shared:unique-after-removal>=50', 'shared:group-takes-name', 'shared:compile-refused', 'shared:built-by-append',
+            'sibling:shared-base', 'sibling:shared-permuted', 'sibling:shared-without', 'sibling:undefined-here:shared-name>=100',
+            'rejected-definition', 'rejected-definition:shared-member', 'rejected-definition:undefined-member', 'rejected-definition:composition-length']
 
 
 class Setup:
@@ -94,6 +112,8 @@ class Setup:
             if g.get('wt', False): wt = c; mol = c / MW[idx]
             else: wt = c * MW[idx]; mol = c
             self.groups[g['name']] = {'idx': idx, 'mol': mol / mol.sum(), 'wt': wt / wt.sum()}
+        # added: the names claimed by two or more chemicals of the set (isomers share their formula ...): they are names of no single position
+        self.contested = claim_tables(chems, [self.own_aliases[i] for i in ids])
 
     def check_own_aliases(self, rec, kind):
         """(strengthened) the aliases Setup defined resolve to the position of their chemical - asserted from the harness's own list, through chemicals.index (a plain
@@ -113,6 +133,7 @@ class Setup:
         p = self.pos[ID]
         if alias not in self.pos:
             self.pos[alias] = p; self.names[p] = sorted(set(self.names[p]) | {alias})
+        self.contested.pop(alias, None)
 
     def add_group(self, g):
         members = list(g['members']); comp = g.get('comp')
@@ -123,6 +144,7 @@ class Setup:
         if g.get('wt', False): wt = c; mol = c / MW[idx]
         else: wt = c * MW[idx]; mol = c
         self.groups[g['name']] = {'idx': idx, 'mol': mol / mol.sum(), 'wt': wt / wt.sum()}
+        self.contested.pop(g['name'], None)          # a group may take a name that no single chemical could keep
 
     def resolve(self, key):
         """key description -> ('scalar', pos) | ('group', [pos]) | ('array', [pos | [pos]]) | ('all',)"""
@@ -255,6 +277,7 @@ class AdoptedSetup(Setup):
         self.thermo = tmo.Thermo(chems)
         self.ids = list(chems.IDs)
         self.pos, self.names = name_tables(chems)
+        self.contested = claim_tables(chems)
         self.groups = {}
         for name, g in (inherited or {}).items():
             mol = np.array(g['mol'], float); wt = np.array(g['wt'], float)
@@ -393,6 +416,8 @@ def sibling_access(rec, rng, W, P, key, as_list, acc, write, vk, hint, setsig, t
             # (strengthened: this is the observation point for positions leaking from one set into another through a shared / stale lookup table, so an answer
             # without an error is a violation - the answer can only come from a lookup made elsewhere - and only UndefinedChemicalAlias counts as the refusal)
             undefined = sorted({nm for nm in ([key] if isinstance(key, str) else key) if nm not in S_.groups and nm not in S_.pos})
+            claimed = {nm: [S_.ids[p] for p in S_.contested[nm]['pos']] for nm in undefined if nm in S_.contested}          # shared names: claimed by several chemicals of this set
+            if claimed: rec.hit('sibling:undefined-here:shared-name')
             op_ = 'get_index' if acc == 'get_index' else 'read'
             try:
                 got = S_.chems.get_index(k) if acc == 'get_index' else ix[fk]
@@ -405,8 +430,8 @@ def sibling_access(rec, rng, W, P, key, as_list, acc, write, vk, hint, setsig, t
             else:
                 rec.check(False, 'sibling-set', f'{W.kind}/{acc}/undefined-accepted',
                           f'{acc} {op_} of {key!r} on the {W.kind} set (chemicals {list(S_.ids)}, groups {sorted(S_.groups)}), which does not define {undefined}, was answered with {show(got)} '
-                          f'instead of UndefinedChemicalAlias: the answer can only come from a lookup made through another set',
-                          detail={'key': key, 'undefined_here': undefined, 'set': list(S_.ids), 'groups': sorted(S_.groups), 'returned': show(got)})
+                          f'instead of UndefinedChemicalAlias: ' + (f'the name is claimed by several chemicals of this set ({claimed}) and can be the name of no single position' if claimed else 'the answer can only come from a lookup made through another set'),
+                          detail={'key': key, 'undefined_here': undefined, 'claimed_by_several': claimed, 'set': list(S_.ids), 'groups': sorted(S_.groups), 'returned': show(got)})
             return
         kk = key_kind(r)
 
@@ -471,6 +496,337 @@ def release(chems):
         reg = tmo.CompiledChemicals._cache
         for k_ in [k_ for k_, v_ in list(reg.items()) if v_ is chems]: reg.pop(k_, None)
     except Exception: pass
+
+
+# ---------------------------------------------------------------------------------------------------------------------
+# added: chemical sets in which two or three chemicals claim the same name (isomers share their formula; a chemical copied under a new ID keeps the
+# formula of the original; user-defined chemicals given the same alias / common name / IUPAC name / formula at construction; a user alias that is the
+# formula or the common name of a database chemical of the set).  Such a name is a name of no single position: it is not defined in that set.
+
+ISO_FAMILIES = (('Propanol', '2-Propanol'), ('Ethanol', 'DimethylEther'), ('Butanol', '2-Butanol', 'Isobutanol', 'tert-Butanol', 'DiethylEther'),
+                ('Hexane', '2-Methylpentane', '3-Methylpentane'), ('AceticAcid', 'MethylFormate'), ('Glucose', 'Fructose', 'Galactose', 'Mannose'),
+                ('Acetone', 'Propanal'), ('Octane', 'Isooctane'), ('Pentane', 'Isopentane', 'Neopentane'), ('o-Xylene', 'm-Xylene', 'p-Xylene', 'Ethylbenzene'))
+SHARED_SOURCES = ('formula-db', 'formula-db', 'formula-copy', 'formula-blank', 'alias-blank', 'alias-copy', 'common_name', 'iupac_name', 'cross-db')
+
+
+def names_by_role(c, own=()):
+    """name -> the role by which the chemical object claims it (formula > common_name > iupac_name > alias); ID and CAS are not claims but ownership."""
+    roles = {}
+    for a in own: roles[a] = 'alias'
+    for a in sorted(c.aliases): roles[a] = 'alias'
+    iup = c.iupac_name
+    if not iup: iup = ()
+    elif isinstance(iup, str): iup = (iup,)
+    for a in iup: roles[a] = 'iupac_name'
+    if c.common_name: roles[c.common_name] = 'common_name'
+    if c.formula: roles[c.formula] = 'formula'
+    return {a: r_ for a, r_ in roles.items() if a}
+
+
+def claim_tables(chems, own_aliases=None):
+    """names claimed by two or more chemicals of the set and owned (as ID or CAS) by none: name -> {'pos': claimant positions, 'source': role | 'mixed'}."""
+    chems = list(chems)
+    owners = set(); claims = {}
+    for p, c in enumerate(chems):
+        owners |= {c.ID, c.CAS}
+        for a, role in names_by_role(c, own_aliases[p] if own_aliases else ()).items(): claims.setdefault(a, []).append((p, role))
+    out = {}
+    for a in sorted(claims):
+        v = claims[a]
+        if len(v) >= 2 and a not in owners:
+            rs_ = sorted({role for _, role in v})
+            out[a] = {'pos': [p for p, _ in v], 'source': rs_[0] if len(rs_) == 1 else 'mixed'}
+    return out
+
+
+def restore_flows(st, ms, snap1, snap2):
+    st.imol.data[:] = snap1
+    for i in range(len(snap2)): ms.imol.data.rows[i][:] = snap2[i]
+
+
+def check_contested(rec, S, kind, st, ms, mphases, rs, limit=3):
+    """every name that two or more chemicals of the set claim, through every entry point that turns a name into a position (reads, writes, builders):
+    no answer can be the single position of each claimant, so the only answer the property allows is the documented refusal (UndefinedChemicalAlias).
+    Flow data that an accepted write changed is put back (the acceptance itself is reported)."""
+    names = sorted(S.contested)
+    if not names: return
+    if len(names) > limit: names = sorted(rs.sample(names, limit))
+    n = len(S.ids)
+    MolarFlowIndexer = tmo.indexer.MolarFlowIndexer; ChemicalMolarFlowIndexer = tmo.indexer.ChemicalMolarFlowIndexer
+    for nm in names:
+        info = S.contested[nm]; src = info['source']; claim = list(info['pos'])
+        rest = [p for p in range(n) if p not in claim]
+        other = S.ids[rs.choice(rest)] if rest else S.ids[claim[0]]
+        ph = rs.choice(list(mphases)); v = round(10 ** rs.uniform(-1, 2), 3)
+        snap1 = dense_of(st.imol); snap2 = dense_of(ms.imol)
+        chems = S.chems
+
+        def w_(f):
+            def g(): f(); return 'the write returned normally'
+            return g
+        def s_write(): st.imol[nm] = v
+        def s_tuple_write(): st.imol[other, nm] = [v, v]
+        def m_write(): ms.imol[ph, nm] = v
+        def m_all_write(): ms.imol[..., nm] = v
+        def smass_write(): st.imass[nm] = v
+        def mmass_write(): ms.imass[ph, (nm,)] = [v]
+        entries = [
+            ('chemicals.index', lambda: chems.index(nm)),
+            ('chemicals.indices', lambda: chems.indices([other, nm])),
+            ('get_index', lambda: chems.get_index(nm)),
+            ('get_index-tuple', lambda: chems.get_index((nm, other))),
+            ('chemicals-getitem', lambda: chems[nm]),
+            ('S-read', lambda: st.imol[nm]),
+            ('S-tuple-read', lambda: st.imol[other, nm]),
+            ('S-list-read', lambda: st.imol[[nm, other]]),
+            ('S-mass-read', lambda: st.imass[nm]),
+            ('M-sum-read', lambda: ms.imol[nm]),
+            ('M-phase-read', lambda: ms.imol[ph, nm]),
+            ('M-phase-tuple-read', lambda: ms.imol[ph, (nm, other)]),
+            ('M-all-read', lambda: ms.imol[..., nm]),
+            ('M-mass-read', lambda: ms.imass[ph, nm]),
+            ('get_flow', lambda: st.get_flow('kmol/hr', nm)),
+            ('get_data', lambda: ms.imol.get_data('kmol/hr', ph, nm)),
+            ('raw-S-read', lambda: ChemicalMolarFlowIndexer.from_data(snap1.copy(), 'l', chems)[nm]),
+            ('raw-M-read', lambda: MolarFlowIndexer.from_data(snap2.copy(), tuple(mphases), chems)[ph, nm]),
+            ('phase-proxy-read', lambda: ms[ph].imol[nm]),
+            ('isplit-dict', lambda: chems.isplit({nm: 0.5}).data),
+            ('split-read', lambda: chems.isplit(0.5)[nm]),
+            ('kwarray', lambda: chems.kwarray({nm: v})),
+            ('array', lambda: chems.array([other, nm], [v, v])),
+            ('ikwarray', lambda: chems.ikwarray({nm: v}).data),
+            ('kwsplit', lambda: chems.kwsplit({nm: 0.5})),
+            ('define_group-member', lambda: (chems.define_group('Tmp_shared_member_grp', [other, nm]), chems.get_index('Tmp_shared_member_grp'))[1]),
+            ('S-write', w_(s_write)), ('S-tuple-write', w_(s_tuple_write)), ('M-phase-write', w_(m_write)), ('M-all-write', w_(m_all_write)),
+            ('S-mass-write', w_(smass_write)), ('M-mass-write', w_(mmass_write)),
+            ('set_flow', w_(lambda: st.set_flow(v, 'kmol/hr', nm))),
+        ]
+        if nm.isidentifier(): entries.append(('Stream-keyword', lambda: tmo.Stream(None, thermo=S.thermo, **{nm: v}).imol.data))
+        if other == S.ids[claim[0]] and not rest:
+            entries = [e_ for e_ in entries if e_[0] not in ('S-tuple-write',)]          # the neighbour is a claimant itself: a write key must not address a position twice
+        who = [S.ids[p] for p in claim]
+        for entry, f in entries:
+            try: got = f()
+            except UndefinedChemicalAlias:
+                rec.check(True, 'names-one-position', f'shared-name/{src}/{entry}/answered', '')
+            except Exception as e:
+                rec.check(False, 'names-one-position', f'shared-name/{src}/{entry}/wrong-exception',
+                          f'{entry} with {nm!r} - a name ({src}) claimed by the chemicals {who} at positions {claim} of the {kind} set {list(S.ids)}, hence a name of no single position - raised '
+                          f'{type(e).__name__} ({str(e)[:120]}) instead of UndefinedChemicalAlias', detail={'name': nm, 'claimants': who, 'set': list(S.ids), 'kind': kind, 'exception': f'{type(e).__name__}: {str(e)[:300]}', 'at': exc_key(e)})
+            else:
+                rec.check(False, 'names-one-position', f'shared-name/{src}/{entry}/answered',
+                          f'{nm!r} is a name ({src}) of each of the chemicals {who} (positions {claim}) of the {kind} set {list(S.ids)}: it cannot resolve to the single position of every one of them, '
+                          f'yet {entry} answered {show(got)} instead of UndefinedChemicalAlias (the name addresses the entry of only one of its claimants)',
+                          detail={'name': nm, 'claimants': who, 'positions': claim, 'set': list(S.ids), 'kind': kind, 'returned': show(got)})
+        # the two entry points that do not raise: available_indices leaves undefined names out, attribute access raises AttributeError
+        try:
+            av = chems.available_indices([other, nm]); exp = [S.pos[other]]
+            rec.check(av == exp, 'names-one-position', f'shared-name/{src}/available_indices/answered', f'available_indices([{other!r}, {nm!r}]) on the {kind} set {list(S.ids)} = {av!r}, but {nm!r} is claimed by {who} '
+                      f'(positions {claim}) and is a name of no single position: expected {exp!r}')
+            if nm.isidentifier():
+                try: got = getattr(chems, nm)
+                except (AttributeError, UndefinedChemicalAlias): rec.check(True, 'names-one-position', f'shared-name/{src}/attribute/answered', '')
+                else: rec.check(False, 'names-one-position', f'shared-name/{src}/attribute/answered', f'chemicals.{nm} on the {kind} set {list(S.ids)} gives {got!r} although {nm!r} is claimed by {who} (positions {claim})')
+        except Exception as e:
+            rec.exception('names-one-position', e, what=f'available_indices / attribute access with the shared name {nm!r} raised {type(e).__name__}: {str(e)[:120]}')
+        now1 = dense_of(st.imol); now2 = dense_of(ms.imol)
+        if not rec.check(same(now1, snap1, rel=0) and same(now2, snap2, rel=0), 'names-one-position', f'shared-name/{src}/data-untouched',
+                         f'lookups / writes through {nm!r} (claimed by {who} of the {kind} set) changed the flow data: {snap1.tolist()} -> {now1.tolist()}; {snap2.tolist()} -> {now2.tolist()}'):
+            try: restore_flows(st, ms, snap1, snap2)
+            except Exception: pass
+        rec.hit('shared-name'); rec.hit('shared-name:' + src); rec.hit('shared-name:set:' + kind)
+        if len(claim) >= 3: rec.hit('shared-name:three-claimants')
+        if not rest: rec.hit('shared-name:every-chemical-claims')
+        rec.mark_nontrivial(case_hash((tuple(S.ids), 'SHN', nm)))
+
+
+def check_unique_names(rec, S, kind, st, D1):
+    """every name that exactly one chemical of the set claims resolves to the position of that chemical (through the plain entry points and a flow read)."""
+    for p in range(len(S.ids)):
+        for name in S.names[p]:
+            try:
+                a = S.chems.index(name); b = S.chems.indices([name])[0]; c = S.chems.get_index(name); v = st.imol[name]
+            except Exception as e:
+                rec.exception('names-one-position', e, what=f'name {name!r} of {S.ids[p]} in the {kind} set {list(S.ids)} raised {type(e).__name__}: {str(e)[:120]}'); continue
+            rec.check(a == p and b == p and c == p and v == D1[p], 'names-one-position', f'shared-set/{kind}/index', f'name {name!r} of {S.ids[p]} (only that chemical of the {kind} set {list(S.ids)} claims it) resolves to {a}/{b}/{c}, '
+                      f'value {v}, expected position {p} (value {D1[p]})')
+
+
+def make_chemical(sp):
+    """a chemical of a shared-name set: a database chemical (the cached object every set of the run shares), a copy of one under a new ID (own object; keeps the
+    formula), or a user-defined chemical with the names given at construction."""
+    if sp['k'] == 'db': return tmo.Chemical(sp['ID'], cache=True)
+    if sp['k'] == 'copy':
+        c = tmo.Chemical(sp['of'], cache=True).copy(sp['ID'])
+        for a in sp.get('aliases', ()): c.aliases.add(a)
+        return c
+    kw = {}
+    if sp.get('formula'): kw['formula'] = sp['formula']
+    if sp.get('common_name'): kw['common_name'] = sp['common_name']
+    if sp.get('iupac_name'): kw['iupac_name'] = sp['iupac_name'] if isinstance(sp['iupac_name'], str) else tuple(sp['iupac_name'])
+    al = list(sp.get('aliases', ()))
+    if sp.get('alias_from'):
+        role, of = sp['alias_from']; v = getattr(tmo.Chemical(of, cache=True), role)
+        if isinstance(v, (tuple, list)): v = v[0] if v else None
+        if v: al.append(v)
+    return tmo.Chemical(sp['ID'], search_db=False, default=True, phase='l', MW=sp['MW'], aliases=tuple(al), **kw)
+
+
+def gen_shared_def(r):
+    """a chemical set of 2-8 in which 1-3 names are claimed by two or three chemicals each."""
+    specs = []; taken = set(); L = 'ABC'
+    def add(sp):
+        if sp['ID'] in taken or len(specs) >= 8: return
+        if sp['k'] == 'db' and sp['ID'] == 'Propanol' and '1-Propanol' in taken: return
+        taken.add(sp['ID']); specs.append(sp)
+    def blank(ID, **kw): return dict({'k': 'blank', 'ID': ID, 'MW': round(r.uniform(20, 300), 2)}, **kw)
+    for si, src in enumerate(r.sample(SHARED_SOURCES, r.choice([1, 1, 2, 2, 3]))):
+        mult = 2 if r.random() < 0.65 else 3
+        if src == 'formula-db':
+            fam = r.choice(ISO_FAMILIES)
+            for m in r.sample(fam, min(mult, len(fam))): add({'k': 'db', 'ID': m})
+        elif src == 'formula-copy':
+            base = r.choice(POOL); add({'k': 'db', 'ID': base})
+            for j in range(mult - 1): add({'k': 'copy', 'of': base, 'ID': f'{base}_v{j}', 'aliases': [f'{base}_v{j}_own']})
+        elif src == 'formula-blank':
+            f = r.choice(['C7H16', 'C5H10O2', 'C9H20', 'C3H9N'])
+            for j in range(mult): add(blank(f'Pseudo{si}{L[j]}', formula=f, aliases=[f'pseudo_{si}{L[j]}']))
+        elif src == 'alias-blank':
+            for j in range(mult): add(blank(f'Solv{si}{L[j]}', aliases=[f'Solvent{si}', f'S{si}{L[j]}']))
+        elif src == 'alias-copy':
+            for b in r.sample(POOL, mult): add({'k': 'copy', 'of': b, 'ID': f'{b}_c{si}', 'aliases': [f'Blend{si}', f'{b}_c{si}_own']})
+        elif src == 'common_name':
+            for j in range(mult): add(blank(f'Cut{si}{L[j]}', common_name=f'light cut {si}', aliases=[f'cut_{si}{L[j]}']))
+        elif src == 'iupac_name':
+            as_str = r.random() < 0.3
+            for j in range(mult): add(blank(f'Frac{si}{L[j]}', iupac_name=f'fraction-{si}' if as_str else [f'fraction-{si}-{L[j]}', f'fraction-{si}']))
+        else:
+            base = r.choice(POOL); role = r.choice(['formula', 'formula', 'common_name', 'iupac_name']); add({'k': 'db', 'ID': base})
+            for j in range(mult - 1): add(blank(f'Mimic{si}{L[j]}', alias_from=[role, base], aliases=[f'mimic_{si}{L[j]}']))
+    for b in r.sample(POOL, r.randrange(0, 4)): add({'k': 'db', 'ID': b})
+    if len(specs) < 2: add({'k': 'db', 'ID': r.choice([b for b in POOL if b not in taken])})
+    clash = None
+    dbs = [sp['ID'] for sp in specs if sp['k'] == 'db']
+    if dbs and len(specs) < 8 and r.random() < 0.06:
+        clash = r.choice(dbs); add(blank('Impostor', aliases=[clash, 'impostor_own']))          # an alias that is the ID of another chemical: compile refuses (alias already in use)
+    r.shuffle(specs)
+    groups = []
+    for g in range(r.randrange(0, 3)):
+        m = r.sample(range(len(specs)), r.randrange(1, min(3, len(specs)) + 1))
+        groups.append({'name': f'SGrp{g}', 'members': m, 'comp': None if r.random() < 0.4 else [round(r.uniform(0.1, 2), 3) for _ in m], 'wt': r.random() < 0.5})
+    ph = ['lg', 'lgs', 'lL', 'gls', 'sl', 'glLs', 'l', 'g']
+    phases = r.choice(ph); phases2 = r.choice([q for q in ph if set(q) != set(phases)])
+    return {'chems': specs, 'groups': groups, 'phases': phases, 'phases2': phases2, 'clash': clash}
+
+
+def run_shared(rec, op, cleanup):
+    """a set with shared names, compiled in several ways (as given / in the opposite order / without all but one claimant of a shared name / through the
+    CompiledChemicals constructor / unpickled), in a random order; every set is judged against its own tables: unique names resolve to their chemical, shared
+    names are refused by every entry point, and the same keys are read and written through the indexers of every set in interleaved order."""
+    rs = random.Random(op['seed']); d = op['def']
+    try: objs = [make_chemical(sp) for sp in d['chems']]
+    except Exception as e:
+        rec.exception('shared-set', e, what=f'creating the chemicals of a shared-name set raised {type(e).__name__}: {str(e)[:150]}'); return
+    m = len(objs)
+    base_claims = claim_tables(objs)
+    plans = [('shared-base', list(range(m))), ('shared-permuted', list(range(m))[::-1])]
+    nm0 = None
+    if base_claims:
+        nm0 = rs.choice(sorted(base_claims)); keep = rs.choice(base_claims[nm0]['pos'])
+        plans.append(('shared-without', [i for i in range(m) if i == keep or i not in base_claims[nm0]['pos']]))
+    if rs.random() < 0.35:
+        o_ = list(range(m)); rs.shuffle(o_); plans.append(('shared-constructor', o_))
+    want_pickle = rs.random() < 0.3
+    rs.shuffle(plans)
+    by_append = op['seed'] % 2 == 0
+    worlds = []
+    for kind, order in plans:
+        sub = [objs[i] for i in order]
+        owners = {}
+        for c in sub: owners[c.ID] = c; owners[c.CAS] = c
+        id_clash = any(a in owners and owners[a] is not c for c in sub for a in c.aliases)
+        try:
+            if kind == 'shared-constructor': chems = tmo.CompiledChemicals(sub)
+            elif kind == 'shared-permuted' and by_append:
+                chems = tmo.Chemicals(sub[:1])          # the set is put together one chemical at a time before it is compiled
+                for c in sub[1:]: chems.append(c)
+                chems.compile(); rec.hit('shared:built-by-append')
+            else: chems = tmo.Chemicals(sub); chems.compile()
+        except ValueError as e:
+            if id_clash and 'already in use' in str(e):
+                rec.refuse('compile refused: an alias given at construction is the ID / CAS of another chemical of the set (alias already in use)'); rec.hit('shared:compile-refused'); continue
+            rec.exception('shared-set', e, what=f'compiling the {kind} shared-name set {[c.ID for c in sub]} raised ValueError: {str(e)[:150]}'); continue
+        except Exception as e:
+            rec.exception('shared-set', e, what=f'compiling the {kind} shared-name set {[c.ID for c in sub]} raised {type(e).__name__}: {str(e)[:150]}'); continue
+        cleanup.append(lambda c_=chems: release(c_))
+        try:
+            todo = [(kind, chems)]
+            if kind == 'shared-base' and want_pickle:
+                pc = pickle.loads(pickle.dumps(chems)); cleanup.append(lambda c_=pc: release(c_)); todo.append(('shared-pickled', pc))
+            for kind_, chems_ in todo:
+                Sx = AdoptedSetup(chems_)
+                for g in d['groups']:
+                    mem = [(objs[i].ID, j) for j, i in enumerate(g['members']) if i in order]
+                    if not mem: continue
+                    Sx.add_group({'name': g['name'], 'members': [i for i, _ in mem], 'comp': [g['comp'][j] for _, j in mem] if g['comp'] else None, 'wt': g['wt']})
+                worlds.append(World.fresh(kind_, Sx, d['phases'], d['phases2'], rs))
+        except Exception as e:
+            rec.exception('shared-set', e, what=f'building the tables / groups / streams of the {kind} shared-name set raised {type(e).__name__}: {str(e)[:150]}')
+    if not worlds: return
+    for W in worlds:
+        check_unique_names(rec, W.S, W.kind, W.st, W.D1)
+        check_contested(rec, W.S, W.kind, W.st, W.ms, W.ph, rs)
+        if W.kind == 'shared-without' and nm0 in W.S.pos: rec.hit('shared:unique-after-removal')
+    P = next((W for W in worlds if W.kind == 'shared-base'), worlds[0])
+    setsig = (tuple(c.ID for c in objs), 'shared')
+    shared = sorted({nm for W in worlds for nm in W.S.contested})
+
+    def rounds(k_, contested, tags):
+        for _ in range(k_):
+            speaker = rs.choice(worlds); write = rs.random() < 0.4
+            key = gen_contested_key(rs, speaker.S, contested, write)
+            as_list = rs.random() < 0.3 and not isinstance(key, str)
+            acc = rs.choice(SIB_ACCESS); vk = rs.choice(['scalar', 'list']); hint = rs.randrange(12)
+            order = list(worlds); rs.shuffle(order)
+            for W in order: sibling_access(rec, rs, W, P, key, as_list, acc, write, vk, hint, setsig, tags)
+
+    gnames = sorted({g['name'] for g in d['groups']})
+    rounds(op['n'], shared + gnames, {'groups': set(gnames), 'alias': None})
+    # a group takes the shared name (the isomers as a group): the name is a group in that set, and still a name of no single position in the others
+    W = rs.choice(worlds)
+    if W.S.contested and rs.random() < 0.5:
+        nm = rs.choice(sorted(W.S.contested)); mem = [W.S.ids[p] for p in W.S.contested[nm]['pos']]
+        try:
+            W.S.add_group({'name': nm, 'members': mem, 'comp': None if rs.random() < 0.5 else [round(rs.uniform(0.1, 2), 3) for _ in mem], 'wt': rs.random() < 0.5})
+            rec.hit('shared:group-takes-name')
+            rounds(4, [nm], {'groups': {nm}, 'alias': None})
+        except Exception as e:
+            rec.exception('shared-set', e, what=f'defining a group under the shared name {nm!r} raised {type(e).__name__}: {str(e)[:150]}')
+    # definitions that are refused leave the tables as they were: a group with an undefined member, a composition of the wrong length
+    W = rs.choice(worlds); S_ = W.S
+    bad = rs.choice(sorted(S_.contested) + ['no_such_chemical_9'])
+    what = 'shared-member' if bad in S_.contested else 'undefined-member'
+    target = rs.choice(sorted(S_.groups) + ['RejectedGrp'])
+    valid = rs.sample(S_.ids, min(len(S_.ids), rs.randrange(1, 3)))
+    trials = [(what, lambda: S_.chems.define_group(target, valid + [bad]), (UndefinedChemicalAlias,)),
+              ('composition-length', lambda: S_.chems.define_group(target, valid, [1.0] * (len(valid) + 1)), (ValueError,))]
+    for what_, f, documented in trials:
+        try: f()
+        except documented:
+            rec.check(True, 'rejected-definition', f'{what_}/accepted', ''); rec.hit('rejected-definition'); rec.hit('rejected-definition:' + what_)
+        except Exception as e:
+            rec.check(False, 'rejected-definition', f'{what_}/wrong-exception', f'define_group({target!r}, ...) with {what_} on the {W.kind} set raised {type(e).__name__} ({str(e)[:120]}) instead of {documented[0].__name__}',
+                      detail={'exception': f'{type(e).__name__}: {str(e)[:300]}', 'at': exc_key(e)})
+        else:
+            rec.check(False, 'rejected-definition', f'{what_}/accepted', f'define_group({target!r}, {valid + [bad] if what_ != "composition-length" else valid}, ...) with {what_} on the {W.kind} set {list(S_.ids)} was accepted without an error')
+            continue
+        # the group is what it was (the model keeps the last accepted definition); a name that was never defined stays undefined
+        if target in S_.groups: rounds(2, [target], {'groups': {target}, 'alias': None})
+        else:
+            try: got = W.st.imol[target]
+            except UndefinedChemicalAlias: rec.check(True, 'rejected-definition', f'{what_}/name-defined', '')
+            except Exception as e: rec.exception('rejected-definition', e, what=f'reading the name of a refused group definition raised {type(e).__name__}: {str(e)[:120]}')
+            else: rec.check(False, 'rejected-definition', f'{what_}/name-defined', f'define_group({target!r}, ...) was refused ({what_}) on the {W.kind} set, yet imol[{target!r}] now answers {show(got)}')
 
 
 def run_case(case, rec):
@@ -579,6 +935,9 @@ def _run_case(case, rec, cleanup):
                     except Exception as e:
                         rec.exception('names-one-position', e, what=f'name {name!r} of {ids[p]} raised {type(e).__name__}: {str(e)[:120]}'); continue
                     rec.check(a == p and b == p and c == p and v == D1[p], 'names-one-position', 'index', f'name {name!r} of {ids[p]} resolves to {a}/{b}/{c}, value {v}, expected position {p}')
+            # added: names that two or more chemicals of the set claim (isomers share their formula) are names of no single position: refused by every entry point
+            if S.contested:
+                check_contested(rec, S, 'primary', st, ms, mphases, random.Random(case['seed'] ^ 0x5C10)); rec.hit('shared-name:primary')
         elif t == 'writes':
             for _ in range(op['n']):
                 key = gen_key(rng, S, write=True); as_list = rng.random() < 0.3 and not isinstance(key, str)
@@ -1161,6 +1520,14 @@ def _run_case(case, rec, cleanup):
             for W in allw:
                 for nm, g_ in W.S.groups.items(): gsets.setdefault(nm, []).append(frozenset(W.S.ids[i] for i in g_['idx']))
             contested = sorted(gsets) + ([sib['tag']] if sib['tag'] else [])
+            # added: names shared by two chemicals in one world (undefined there) that another world - one claimant less - resolves; every world is asked for its own shared names
+            shared_ = sorted({nm for W in allw for nm in W.S.contested})
+            if shared_:
+                contested = contested + shared_
+                rs_ = random.Random((case['seed'] ^ 0x51B) + len(contested))
+                for W in allw:
+                    if W.S.contested: check_contested(rec, W.S, W.kind, W.st, W.ms, W.ph, rs_, limit=2)
+                rec.hit('shared-name:siblings')
             tags = {'groups': {nm for nm, v in gsets.items() if len(set(v)) >= 2}, 'alias': sib['tag']}
             for _ in range(op['n']):
                 speaker = rng.choice(allw)
@@ -1171,6 +1538,14 @@ def _run_case(case, rec, cleanup):
                 order = list(allw); rng.shuffle(order)
                 for W in order: sibling_access(rec, rng, W, P, key, as_list, acc, write, vk, hint, setsig, tags)
                 p_chem.look(); p_mat.look()
+        elif t == 'shared':
+            # added: (1) the shared names of the primary set again, now inside the history (caches warm); (2) a dedicated set with shared names of every source
+            # (user-defined chemicals, copies, isomers), compiled in several ways and orders.  The operation draws from its own generator: the rest of the history is unchanged
+            if S.contested:
+                check_contested(rec, S, 'primary', st, ms, mphases, random.Random(op['seed'] ^ 0x77)); rec.hit('shared-name:primary-mid-history')
+            run_shared(rec, op, cleanup)
+            rec.hit('shared')
+            p_chem.look(); p_mat.look()
         elif t == 'regroup':
             # an existing group name is defined again with other members while the caches are warm, used, and then given its first definition back
             gd = dict(gdefs)
@@ -1247,7 +1622,26 @@ def gen_case(rng, tier, big):
         ops.insert(rng.randrange(1, len(ops)), {'t': 'flood', 'tgt': 'S', 'n': nflood})
         ops.insert(rng.randrange(1, len(ops)), {'t': 'flood', 'tgt': 'M', 'n': nflood})
         ops.append({'t': 'reads', 'n': 20}); ops.append({'t': 'twin', 'n': 10})
-    return {'ids': ids, 'groups': groups, 'phases': phases, 'ops': ops, 'seed': rng.randrange(2 ** 31)}
+    case = {'ids': ids, 'groups': groups, 'phases': phases, 'ops': ops, 'seed': rng.randrange(2 ** 31)}
+    # added: sets with shared names.  Drawn from a generator of their own (seeded by the case) so that the cases generated before this addition stay what they were:
+    # (a) about one case in five gets isomers (2-3 chemicals of one formula) into its primary set, at random positions; (b) 0-2 'shared' operations at random places of the history
+    r2 = random.Random(case['seed'] ^ 0x150C10)
+    if r2.random() < 0.2:
+        present = [f for f in ISO_FAMILIES if any(i in ids for i in f)]
+        fam = r2.choice(present) if (present and r2.random() < 0.7) else r2.choice(ISO_FAMILIES)
+        have = [i for i in fam if i in ids]
+        want = 2 if r2.random() < 0.6 else 3
+        extra = r2.sample([i for i in fam if i not in ids], min(max(want - len(have), 1), len(fam) - len(have)))
+        ids = list(ids)
+        while len(ids) + len(extra) > 8:
+            drop = [i for i in ids if i not in fam]
+            if not drop: break
+            ids.remove(r2.choice(drop))
+        for i in extra: ids.insert(r2.randrange(len(ids) + 1), i)
+        case['ids'] = ids[:8]; case['isomers'] = list(fam)
+    for _ in range(r2.choice([0, 0, 1, 1, 2])):
+        ops.insert(r2.randrange(1, len(ops) + 1), {'t': 'shared', 'n': r2.randrange(3, 10), 'seed': r2.randrange(2 ** 31), 'def': gen_shared_def(r2)})
+    return case
 
 
 def replay(case, rec):
